@@ -237,6 +237,11 @@ def operand_order(ctx, facts, roles, u, b, op, cfg, ckeys, stop_keys):
         d = OD.describe(b, cs[0][2][0], args_param)
         i = OD.absolute_index(d)
         return i, repr(d)
+    at, at_fn = b.where(), b.key        # where the operation is written (for the report)
+    for bb in u.bodies:
+        for bi, si, st in bb.stmts():
+            if st["k"] == "Assign" and st["rv"]["k"] == "BinaryOp" and st["rv"]["op"] == name and st["rv"].get("opty") == "f64" and at_fn == b.key:
+                at, at_fn = bb.where(bi, si), bb.key
     seen, bad, dark = 0, [], []
     for conds, v, p in cases:
         ops_ = []
@@ -268,7 +273,7 @@ def operand_order(ctx, facts, roles, u, b, op, cfg, ckeys, stop_keys):
                 else:
                     ctx.check(i0 == 0 and kst == -1.0, "K3.negation", "one-operand - is (conversion of operand 0) × -1 (%s)" % cfg, "one-operand - computes (conversion of operand %s) × %s" % (i0, kst), where=b.where(), fn=b.key, nontrivial=True)
     for (ia, ib) in sorted(set(bad)):
-        ctx.fail("K3.operand-order", "%s|operand %s %s operand %s" % (op, ia, name, ib), "%s computes (conversion of operand %s) %s (conversion of operand %s); expected operand 0 %s operand 1" % (op, ia, name, ib, name), where=b.where(), fn=b.key)
+        ctx.fail("K3.operand-order", "%s|operand %s %s operand %s" % (op, ia, name, ib), "%s computes (conversion of operand %s) %s (conversion of operand %s); expected operand 0 %s operand 1" % (op, ia, name, ib, name), where=at, fn=at_fn)
     if dark and not bad:
         ctx.unread("K3.operand-order", inst, "%s: the operands of the float %s were not read as conversions of operands of the operand list (%s)" % (op, name, dark[0]), where=b.where(), fn=b.key)
     elif not bad and not seen:
@@ -503,12 +508,15 @@ def k1(ctx, facts, f, cfg):
     fn_cast = cast_at[0].key if cast_at else f.key
     res = {}          # clause -> {"ok": n, "fail": [detail], "unread": [detail]}
 
-    def note(clause, outcome, detail=""):
+    def note(clause, outcome, detail="", tag=None):
         r = res.setdefault(clause, {"ok": 0, "fail": [], "unread": []})
         if outcome == "ok":
             r["ok"] += 1
-        elif detail not in r[outcome]:
-            r[outcome].append(detail)
+        elif outcome == "unread":
+            if detail not in r["unread"]:
+                r["unread"].append(detail)
+        elif not any(t == (tag or "violated") for t, _ in r["fail"]):
+            r["fail"].append((tag or "violated", detail))
 
     kinds = {"int": 0, "float": 0, "err": 0}
     nonfinite_cases = 0
@@ -519,37 +527,37 @@ def k1(ctx, facts, f, cfg):
         bad = []
         _subterms(v, lambda y: y[0] == "call" and bool(y[1]) and ROUNDERS.search(y[1].get("path") or "") is not None, bad)
         for y in bad:
-            note("K1.rounded", "fail", "the result is passed through %s before being returned: it would be rounded further" % y[1]["path"])
+            note("K1.rounded", "fail", "the result is passed through %s before being returned: it would be rounded further" % y[1]["path"], tag=y[1]["path"].rsplit("::", 1)[1])
         if cd.finite is False:
             nonfinite_cases += 1
             if rr[0] == "err":
                 note("K1.non-finite-is-error", "ok")
             elif rr[0] == "panic":
-                note("K1.non-finite-is-error", "fail", "from_f64's None (a non-finite result) is unwrapped: the evaluation panics instead of returning an error")
+                note("K1.non-finite-is-error", "fail", "from_f64's None (a non-finite result) is unwrapped: the evaluation panics instead of returning an error", tag="unwrap")
             else:
-                note("K1.non-finite-is-error", "fail", "where from_f64(x) is None (x not finite) the conversion returns %s, not an error" % show_expr(v)[:80])
+                note("K1.non-finite-is-error", "fail", "where from_f64(x) is None (x not finite) the conversion returns %s, not an error" % show_expr(v)[:80], tag="not Err")
         if rr[0] == "int":
             kinds["int"] += 1
             c = rr[1]
             if _is_x(c[2]) and c[3] == "i64":
                 note("K1.cast-of-result", "ok")
             elif not _is_x(c[2]):
-                note("K1.cast-of-result", "fail", "the float→int cast is applied to %s, not to the result itself" % show_expr(strip_refs(c[2]))[:80])
+                note("K1.cast-of-result", "fail", "the float→int cast is applied to %s, not to the result itself" % show_expr(strip_refs(c[2]))[:80], tag="cast of another value")
             else:
-                note("K1.range", "fail", "the result is cast to %s (saturating); the integer spelling must cover the i64 range" % c[3])
+                note("K1.range", "fail", "the result is cast to %s (saturating); the integer spelling must cover the i64 range" % c[3], tag="cast to %s" % c[3])
             if cd.integral is True:
                 note("K1.integrality", "ok")
             elif cd.opaque or cd.other_eq:
                 note("K1.integrality", "unread", "the integer spelling is reached under tests that were not read as the exact integrality test (%s)" % under)
             else:
-                note("K1.integrality", "fail", "the float→int cast is reached without the exact test fract(x) == 0.0 (tests on this path: %s) — a tolerance would round tiny results to 0" % under)
+                note("K1.integrality", "fail", "the float→int cast is reached without the exact test fract(x) == 0.0 (tests on this path: %s) — a tolerance would round tiny results to 0" % under, tag="no exact test")
             lo_ok, hi_ok = cd.in_i64()
             if lo_ok and hi_ok:
                 note("K1.range", "ok")
             elif cd.opaque and not (cd.lo or cd.hi):
                 note("K1.range", "unread", "the integer spelling is reached under tests that were not read as the i64 range guards (%s)" % under)
             else:
-                note("K1.range", "fail", "the saturating float→int cast is not guarded by the exact i64 range -2^63 <= x < 2^63 (bounds read on this path: %s)" % (cd.bounds() or "none"))
+                note("K1.range", "fail", "the saturating float→int cast is not guarded by the exact i64 range -2^63 <= x < 2^63 (bounds read on this path: %s)" % (cd.bounds() or "none"), tag="bounds " + ",".join(cd.bounds() or ["none"]))
         elif rr[0] == "float":
             kinds["float"] += 1
             note("K1.from-f64", "ok")
@@ -558,7 +566,7 @@ def k1(ctx, facts, f, cfg):
             elif cd.opaque or cd.other_eq or cd.loose:
                 note("K1.integer-spelling", "unread", "the float spelling is reached under tests that were not read as 'not integral or outside the i64 range' (%s)" % under)
             else:
-                note("K1.integer-spelling", "fail", "a result that is integral and fits an i64 can reach the float spelling (tests on this path: %s)" % under)
+                note("K1.integer-spelling", "fail", "a result that is integral and fits an i64 can reach the float spelling (tests on this path: %s)" % under, tag="integral result as float")
         elif rr[0] == "err":
             kinds["err"] += 1
             if cd.finite is False:
@@ -566,10 +574,10 @@ def k1(ctx, facts, f, cfg):
             elif cd.opaque:
                 note("K1.error-iff-non-finite", "unread", "an error is returned under tests that were not read (%s)" % under)
             else:
-                note("K1.error-iff-non-finite", "fail", "an error is returned for a finite result (tests on this path: %s)" % under)
+                note("K1.error-iff-non-finite", "fail", "an error is returned for a finite result (tests on this path: %s)" % under, tag="finite result")
         elif rr[0] == "panic":
             if cd.finite is not False:
-                note("K1.non-finite-is-error", "fail", "the conversion can panic (unwrap of None under: %s)" % under)
+                note("K1.non-finite-is-error", "fail", "the conversion can panic (unwrap of None under: %s)" % under, tag="panic")
         else:
             o = rr[1]
             seen_bad = bool(bad)
@@ -578,25 +586,25 @@ def k1(ctx, facts, f, cfg):
             for c in cs_:
                 seen_bad = True
                 if not _is_x(c[2]):
-                    note("K1.cast-of-result", "fail", "the float→int cast is applied to %s, not to the result itself" % show_expr(strip_refs(c[2]))[:80])
+                    note("K1.cast-of-result", "fail", "the float→int cast is applied to %s, not to the result itself" % show_expr(strip_refs(c[2]))[:80], tag="cast of another value")
                 else:
-                    note("K1.cast-of-result", "fail", "the integer %s goes through %s before it becomes the JSON number" % (show_expr(c)[:40], show_expr(o)[:80]))
+                    note("K1.cast-of-result", "fail", "the integer %s goes through %s before it becomes the JSON number" % (show_expr(c)[:40], show_expr(o)[:80]), tag="integer altered")
             vs_ = []
             _subterms(o, lambda y: y[0] == "call" and bool(y[1]) and re.search(r"^<serde_json::Value as std::convert::From<f(32|64)>>::from$|^serde_json::Number::from_f64$", y[1].get("path") or "") is not None, vs_)
             for y in vs_:
                 seen_bad = True
                 if y[1]["path"].endswith("from_f64"):
-                    note("K1.from-f64", "fail", "Number::from_f64 is applied to %s, not to the result itself" % show_expr(strip_refs(y[2][0]))[:80])
+                    note("K1.from-f64", "fail", "Number::from_f64 is applied to %s, not to the result itself" % show_expr(strip_refs(y[2][0]))[:80], tag="from_f64 of another value")
                 else:
-                    note("K1.non-finite-is-error", "fail", "the result goes through Value::from(f64), which maps a non-finite number to null instead of an error")
+                    note("K1.non-finite-is-error", "fail", "the result goes through Value::from(f64), which maps a non-finite number to null instead of an error", tag="Value::from")
             if not seen_bad:
                 note("K1.table", "unread", "the conversion returns %s under (%s): not one of the spellings of a JSON number the rule reads" % (show_expr(o)[:80], under))
     if not nonfinite_cases:
-        note("K1.non-finite-is-error", "unread" if res.get("K1.table", {}).get("unread") else "fail", "no case of the conversion asks whether the result is finite (from_f64 → None): a non-finite result has no way to become an error")
+        note("K1.non-finite-is-error", "unread" if res.get("K1.table", {}).get("unread") else "fail", "no case of the conversion asks whether the result is finite (from_f64 → None): a non-finite result has no way to become an error", tag="no finiteness test")
     if not kinds["int"] and not res.get("K1.table", {}).get("unread"):
-        note("K1.integer-spelling", "fail", "no case of the conversion spells an integral result as a JSON integer")
+        note("K1.integer-spelling", "fail", "no case of the conversion spells an integral result as a JSON integer", tag="no integer spelling")
     if not kinds["float"] and not res.get("K1.table", {}).get("unread"):
-        note("K1.from-f64", "fail", "no case of the conversion hands the result itself to Number::from_f64")
+        note("K1.from-f64", "fail", "no case of the conversion hands the result itself to Number::from_f64", tag="no from_f64")
     titles = {"K1.cast-of-result": "the integer spelling casts the result itself",
               "K1.integrality": "the integer spelling is taken only when fract(result) == 0.0 exactly",
               "K1.range": "the integer spelling is taken only for -2^63 <= result < 2^63",
@@ -611,8 +619,8 @@ def k1(ctx, facts, f, cfg):
         where = at_cast if clause in ("K1.cast-of-result", "K1.integrality", "K1.range") else f.where()
         fn = fn_cast if clause in ("K1.cast-of-result", "K1.integrality", "K1.range") else f.key
         if r["fail"]:
-            for d in r["fail"][:3]:
-                ctx.fail(clause, "%s|%s" % (name, re.sub(r"\(tests on this path:.*?\)|\(bounds read on this path:.*?\)", "", d)[:60]), d, where=where, fn=fn)
+            for tag, d in r["fail"][:4]:
+                ctx.fail(clause, "%s|%s" % (name, tag), d, where=where, fn=fn)
         elif r["unread"]:
             ctx.unread(clause, "%s (%s)" % (name, cfg), r["unread"][0], where=where, fn=fn)
         else:
